@@ -776,8 +776,11 @@ class ExtMixin(object):
                 return Const(r)
             if isinstance(r, list):
                 return ListV([Const(x) for x in r], "list")
+            if isinstance(r, tuple):
+                return ListV([Const(x) for x in r], "tuple")
             if isinstance(r, int):
                 return Num(ep.const(r))
+            self.err(node, "str.%s returned %r" % (name, type(r).__name__))
         if name in ("strip", "lower", "upper", "rstrip", "lstrip", "replace"):
             return StrV(SFmt("s", Opaque((name, base.key()) + tuple(a.key() for a in args))))
         self.err(node, "str method %s on symbolic string" % name)
